@@ -51,6 +51,11 @@ pub fn validate_digest_algorithm(digest_algorithm: DigestAlgorithm) -> Result<()
 
 /// If `content_dir` contains `.`, `..`, or `/`, then an `InvalidValue` error is returned.
 pub fn validate_content_dir(content_dir: &str) -> Result<()> {
+    if content_dir.is_empty() {
+        return Err(RocflError::InvalidValue(
+            "The content directory cannot be empty".to_string(),
+        ));
+    }
     if content_dir.eq(".") || content_dir.eq("..") || content_dir.contains('/') {
         return Err(RocflError::InvalidValue(format!(
             "The content directory cannot equal '.' or '..' and cannot contain a '/'. Found: {}",
